@@ -614,13 +614,13 @@ fn convert_class_names_and_rpx_in_block(input: &mut StepParser, ss: &mut StyleSh
                     }
                     Token::Function(func) => {
                         let func: &str = func;
-                        let config = if func == "calc" {
-                            Some(ConvertOptions { in_calc: true })
-                        } else {
-                            None
-                        };
                         let close = ss.append_nested_block(next.clone(), input);
-                        convert_rpx_in_block(input, ss, config);
+                        if is_math_function(func) {
+                            convert_rpx_in_block(input, ss, Some(ConvertOptions { in_calc: true }));
+                        } else {
+                            // a selector function (`:is(...)`, `:not(...)`) nested in another one
+                            convert_class_names_and_rpx_in_block(input, ss);
+                        }
                         ss.append_nested_block_close(close, input);
                         in_class = false;
                     }
